@@ -20,6 +20,7 @@
 #ifndef TBOX_EVENT_SELECT_TYPES_H_20240619
 #define TBOX_EVENT_SELECT_TYPES_H_20240619
 
+#include <cstdint>
 #include <vector>
 
 namespace tbox {
@@ -31,6 +32,7 @@ class SelectFdEvent;
 struct SelectFdSharedData {
     int fd = 0;     //!< 文件描述符
     int ref = 0;    //!< 引用计数
+    uint64_t serial = 0;    //!< 创建序号，用于识别等待返回之后才创建的共享数据
 
     int read_event_num = 0;     //!< 监听可读事件的FdEvent个数
     int write_event_num = 0;    //!< 监听可写事件的FdEvent个数
